@@ -161,6 +161,24 @@ func probe(a arg) (string, string) {
 			}
 		}
 	}
+	// named string / byte-slice input types behave like the plain ones
+	{
+		type namedS string
+		type namedB []byte
+		pv, pe := sem.Parse(in)
+		nv, ne := sem.Parse(namedS(in))
+		bv, be := sem.Parse(namedB(in))
+		if nv != pv || bv != pv || (ne == nil) != (pe == nil) || (be == nil) != (pe == nil) {
+			return "named_type_differs", fmt.Sprintf("Parse(%q): plain %+v,%v named string %+v,%v named []byte %+v,%v", in, pv, pe, nv, ne, bv, be)
+		}
+		tv, te := sem.ParseTag(in)
+		ntv, nte := sem.ParseTag(namedS(in))
+		vv, ve := sem.ParseVersion(in)
+		nvv, nve := sem.ParseVersion(namedB(in))
+		if ntv != tv || (nte == nil) != (te == nil) || nvv != vv || (nve == nil) != (ve == nil) {
+			return "named_type_differs", fmt.Sprintf("ParseTag/ParseVersion(%q) differ between plain and named input types", in)
+		}
+	}
 	// methods of an accepted value
 	if accept, _, tag := expectFor(in, 0); accept {
 		v, _ := sem.Parse(in)
@@ -176,6 +194,30 @@ func probe(a arg) (string, string) {
 		}
 		if s := fmt.Sprintf("%s|%t", v, v); s != plain+"|v"+plain {
 			return "verbs", fmt.Sprintf("Parse(%q): %%s|%%t = %q", in, s)
+		}
+	}
+	return "", ""
+}
+
+// texts under a non-default MaxInputLength: accepted iff grammatical and (limit == 0 or len <= limit)
+type limArg struct {
+	In  mc.Bin `json:"in"`
+	Max int    `json:"max_input_length"`
+}
+
+func probeLimit(a limArg) (string, string) {
+	in := string(a.In)
+	body := strings.TrimPrefix(in, "v")
+	sv := oracle.SemverParse(body)
+	want := sv.OK && sv.Overflow == 0 && (a.Max == 0 || len(in) <= a.Max)
+	for i, f := range []func() (sem.Ver, error){func() (sem.Ver, error) { return sem.Parse(in) }, func() (sem.Ver, error) { return sem.Parse([]byte(in)) }, func() (sem.Ver, error) { return sem.DefaultParser(in, 0) },
+		func() (sem.Ver, error) { var v sem.Ver; err := v.UnmarshalText([]byte(in)); return v, err }} {
+		v, err := f()
+		if want != (err == nil) {
+			return "limit_configuration", fmt.Sprintf("entry %d with MaxInputLength=%d on a %d-byte text %.40q...: err=%v, expected accepted=%v", i, a.Max, len(in), in, err, want)
+		}
+		if err == nil && (v.String() != body) {
+			return "limit_configuration_value", fmt.Sprintf("entry %d with MaxInputLength=%d: %.40q... formats back as %.40q", i, a.Max, in, v.String())
 		}
 	}
 	return "", ""
@@ -253,6 +295,7 @@ func main() {
 		reset()
 		p := mc.NewProbe(r, "parse", nil, probe)
 		pv := mc.NewProbe(r, "valid_roundtrip", nil, probeValid)
+		pm := mc.NewProbe(r, "limit_configuration", func(a limArg) { sem.MaxInputLength = a.Max }, probeLimit)
 		r.Assume("reference: recursive-descent recogniser of the semver.org BNF (split at first '+', then first '-'; numeric identifiers without leading zeros; build identifiers may have leading zeros), uint64 limit by decimal-string comparison; no regexp")
 		r.Assume("rejections must be typed (*sem.ParseError instantiated with the type of the input that was passed) with a zero Ver; which sentinel is wrapped is not constrained (the statement does not name one)")
 		one := func(w *mc.W, s []byte) {
@@ -282,7 +325,8 @@ func main() {
 			})
 		})
 		r.Phase("serial: all histories of two calls over 24 texts (the second call is judged on every entry point; the caller reuses one buffer)", "complete for depth 2 over the listed texts", func() {
-			texts := []string{"1.2.3", "1.2.4", "v1.2.3", "1.2.3-rc.1", "1.2.3-rc.2", "1.2.3+b1", "1.2.3+b2", "1.2.3-a+b", "1.2.3-a+c", "v1.2.3-a", "1.2", "1.2.x", "", "v", "01.2.3", "1.2.3-01", "1.2.3-", "9.9.9", "9.9.8",
+			texts := []string{"1.2.3-alpha.beta.gamma.delta+build.0001.sha", "v1.2.3-alpha.beta.gamma.delta+build.0001.sha", "1.2.3-alpha.beta.gamma.delta+build.0001.shb", "10.20.30-x-y-z.0.1.2.3.4.5.6.7.8.9", "v10.20.30-x-y-z.0.1.2.3.4.5.6.7.8.9",
+				"1.2.3", "1.2.4", "v1.2.3", "1.2.3-rc.1", "1.2.3-rc.2", "1.2.3+b1", "1.2.3+b2", "1.2.3-a+b", "1.2.3-a+c", "v1.2.3-a", "1.2", "1.2.x", "", "v", "01.2.3", "1.2.3-01", "1.2.3-", "9.9.9", "9.9.8",
 				"18446744073709551615.0.0", "18446744073709551616.0.0", "1.2.3-zz", "1.2.3-zy", "v9.9.9+zz"}
 			r.Serial(func(w *mc.W) {
 				for _, x := range texts {
@@ -324,6 +368,26 @@ func main() {
 		r.Phase(fmt.Sprintf("all core-shaped strings over {0,1,9,.,v} of length 0..%d", CL), "complete", func() {
 			r.Strings([]byte("019.v"), 0, CL, one)
 		})
+		// numbers of every digit count: 10^k, 10^k-1, 10^k+1, d*10^k (formatting/parsing code that works in digit groups)
+		var pw []string
+		for k := 1; k <= 19; k++ {
+			z := strings.Repeat("0", k)
+			pw = append(pw, "1"+z, strings.Repeat("9", k), "1"+z[:k-1]+"1", "7"+z)
+		}
+		r.Phase(fmt.Sprintf("numeric components of every digit count: %d numbers (10^k, 10^k-1, 10^k+1, 7*10^k) in each of the three positions x suffixes x tag", len(pw)), "complete", func() {
+			r.Parallel(int64(len(pw)), 1, func(w *mc.W, i int64) {
+				x := pw[i]
+				for _, y := range []string{"0", "1", "1000000000", "4294967296"} {
+					for _, s := range []string{"", "-rc.1000000000", "+1000000000", "-a+b"} {
+						for _, t := range []string{"", "v"} {
+							one(w, []byte(t+x+"."+y+"."+y+s))
+							one(w, []byte(t+y+"."+x+"."+y+s))
+							one(w, []byte(t+y+"."+y+"."+x+s))
+						}
+					}
+				}
+			})
+		})
 		nums := []string{"0", "1", "9", "10", "18446744073709551614", "18446744073709551615", "18446744073709551616", "18446744073709551617", "10000000000000000000", "99999999999999999999", "1234567890123456789012345", "00", "01", "09", "18446744073709551625", "28446744073709551615", "", "-1", "1e1"}
 		sufs := []string{"", "-a", "+b", "-a+b", "-1.0.0", "+1.0.0", "-18446744073709551616", "+18446744073709551616", "-01", "+01"}
 		r.Phase(fmt.Sprintf("numeric components: %d^3 cross x %d suffixes x {no tag, tag}", len(nums), len(sufs)), "complete cross product", func() {
@@ -348,6 +412,24 @@ func main() {
 			})
 		})
 		r.Sample("mutant", arg{In: "1.0.0-alpha\n"})
+		for _, ml := range []int{0, 20, 2000} {
+			ml := ml
+			r.Phase(fmt.Sprintf("MaxInputLength=%d: valid-shaped texts of length 10..40 and 1015..2010 (step), with and without tag", ml), "complete grid", func() {
+				sem.MaxInputLength = ml
+				r.Serial(func(w *mc.W) {
+					for l := 10; l <= 2010; l++ {
+						if l > 40 && l < 1015 || l > 1035 && l < 1995 {
+							continue
+						}
+						for _, s := range []string{"1.0.0-" + strings.Repeat("a", l-6), "v1.0.0+" + strings.Repeat("0", l-7)} {
+							w.Point()
+							pm.Do(w, limArg{In: mc.Bin(s), Max: ml})
+						}
+					}
+				})
+				reset()
+			})
+		}
 		r.Phase("length limit: texts of length 1020..1030 (valid shape) ", "complete grid", func() {
 			r.Serial(func(w *mc.W) {
 				for l := 1018; l <= 1030; l++ {
